@@ -667,3 +667,81 @@ func TestC16Race(t *testing.T) {
 		rec.Case(fmt.Sprintf("race|%d|%v", ng, plans), true, cl, func() any { return map[string]any{"goroutines": ng, "plans": plans[:min(len(plans), 3)]} })
 	})
 }
+
+// TestC16Age: the upstream's answers come through an HTTP cache and carry an Age header
+// (RFC 8484 section 5.1), smaller or larger than the records' TTLs. Whatever a resolver
+// makes of Age, it never serves an answer for longer than its TTL: once the clock is past
+// fetch time + TTL, a lookup reflects the zone as it is now.
+func TestC16Age(t *testing.T) {
+	rec := ev.Get("C16")
+	rapid.Check(t, func(t *rapid.T) {
+		z := dnsfx.NewZone()
+		z.Version = 1
+		ttl := uint32(rapid.IntRange(0, 30).Draw(t, "ttl"))
+		age := rapid.SampledFrom([]int{1, 2, 5, 10, 29, 30, 31, 60, 3600, 86400}).Draw(t, "age")
+		g := &zoneGen{t: t, z: z, ttl: func() uint32 { return ttl }}
+		name := "age.example"
+		g.addrs(name, "v1", 1)
+		if len(z.AAAA[name]) == 0 { // an empty answer would be cached for 300 s whatever the TTLs say
+			z.AAAA[name] = []dnsfx.ZRec{{TTL: ttl, IP: g.ip6()}}
+		}
+		withHTTPS := rapid.Bool().Draw(t, "https_record")
+		if withHTTPS {
+			z.HTTPS[name] = []dnsfx.ZRec{{TTL: ttl, HTTPS: dns.HTTPS{Priority: 1, ECH: g.echBytes(name)}}}
+		}
+		now := time.Date(2032, 1, 1, 0, 0, 0, 0, time.UTC)
+		var clockMu sync.Mutex
+		ech.SetTimeNowForVerif(func() time.Time { clockMu.Lock(); defer clockMu.Unlock(); return now })
+		defer ech.SetTimeNowForVerif(nil)
+		var viol string
+		withZoneServer(z, nil, func(url string, srv *dnsfx.Server) {
+			srv.SetAge(age)
+			defer srv.SetAge(0)
+			r, err := ech.NewResolver(url)
+			if err != nil {
+				t.Fatalf("harness: %v", err)
+			}
+			ctx, cancel := context.WithTimeout(context.Background(), 30*time.Second)
+			defer cancel()
+			z.Lock()
+			want1 := dnsfx.RefResolve(z, name)
+			z.Unlock()
+			res1, e1 := r.Resolve(ctx, name)
+			if d := compareOutcome(res1, e1, want1); d != "" {
+				viol = "first lookup: " + d
+				return
+			}
+			// the zone changes; the clock moves past every TTL of the first answers
+			z.Lock()
+			z.Version = 2
+			delete(z.A, name)
+			delete(z.AAAA, name)
+			g.addrs(name, "v2", 1)
+			if len(z.AAAA[name]) == 0 {
+				z.AAAA[name] = []dnsfx.ZRec{{TTL: ttl, IP: g.ip6()}}
+			}
+			if withHTTPS {
+				z.HTTPS[name] = []dnsfx.ZRec{{TTL: ttl, HTTPS: dns.HTTPS{Priority: 1, ECH: g.echBytes(name)}}}
+			}
+			want2 := dnsfx.RefResolve(z, name)
+			z.Unlock()
+			clockMu.Lock()
+			now = now.Add(time.Duration(ttl)*time.Second + time.Duration(rapid.SampledFrom([]int{0, 1, 1000, 86400000}).Draw(t, "past_ttl_ms"))*time.Millisecond)
+			clockMu.Unlock()
+			res2, e2 := r.Resolve(ctx, name)
+			if d := compareOutcome(res2, e2, want2); d != "" {
+				viol = fmt.Sprintf("lookup %v after answers with TTL %d (sent with Age: %d): the zone has changed, the resolver returns the old data: %s", time.Duration(ttl)*time.Second, ttl, age, d)
+			}
+		})
+		if viol != "" {
+			ev.Violation(t, "C16", map[string]any{"ttl": ttl, "age": age, "zone": z.Describe()}, "%s", viol)
+		}
+		cl := []string{"age_header"}
+		if uint32(age) > ttl {
+			cl = append(cl, "age_exceeds_ttl")
+		}
+		rec.Case(fmt.Sprintf("age|%d|%d|%v", ttl, age, withHTTPS), uint32(age) > ttl, cl, func() any {
+			return map[string]any{"kind": "age", "ttl": ttl, "age": age}
+		})
+	})
+}
